@@ -4,35 +4,27 @@ ascent! {
    relation sched(i32, i32, i32, i32);
    relation never();
    relation step(i32);
-   #[ds(ascent_byods_rels::eqrel)] relation r(i32, i32, i32);
-   relation i000(i32, i32, i32);
-   relation o000(i32, i32, i32);
+   relation dom(i32);
+   relation kd(i32);
+   #[ds(ascent_byods_rels::trrel_uf)] relation r(i32, i32, i32);
+   relation i010(i32, i32, i32);
+   relation i001(i32, i32, i32);
+   relation i011(i32, i32, i32);
    step(0);
    step(i + 1) <-- step(i), if *i < 2;
    step(0) <-- r(_, _, _), never();
-   r(k, x, y) <-- step(i), sched(i, k, x, y), if {eprintln!("derive r {} {} {} at step {}", k, x, y, i); true};
-   i000(k, x, y) <-- r(k, x, y), if {eprintln!("read r {} {} {}", k, x, y); true};
-   r(k, x, y) <-- i000(k, x, y), never();
-   o000(k, x, y) <-- r(k, x, y);
-}
-ascent! {
-   struct Q;
-   relation sched(i32, i32, i32, i32);
-   relation never();
-   #[ds(ascent_byods_rels::eqrel)] relation r(i32, i32, i32);
-   relation i000(i32, i32, i32);
-   r(k, x, y) <-- sched(_, k, x, y);
-   i000(k, x, y) <-- r(k, x, y);
-   r(k, x, y) <-- i000(k, x, y), never();
+   dom(x) <-- for x in 0..3;
+   r(k, x, y) <-- step(i), sched(i, k, x, y);
+   i010(k, x, y) <-- dom(x), r(k, x, y);
+   r(k, x, y) <-- i010(k, x, y), never();
+   i001(k, x, y) <-- dom(y), r(k, x, y);
+   r(k, x, y) <-- i001(k, x, y), never();
+   i011(k, x, y) <-- dom(x), dom(y), r(k, x, y);
+   r(k, x, y) <-- i011(k, x, y), never();
 }
 fn main() {
    let mut p = P::default();
-   p.sched = vec![(0, 1, 2, 1)];
+   p.sched = vec![(1, 0, 2, 0), (2, 0, 1, 1)];
    p.run();
-   println!("P i000={:?} o000={:?}", p.i000, p.o000);
-   let mut q = Q::default();
-   q.sched = vec![(0, 1, 2, 1)];
-   q.run();
-   println!("Q i000={:?}", q.i000);
-   println!("{}", Q::summary());
+   println!("{:?}", p.i010);
 }
